@@ -580,38 +580,54 @@ func (c *Ctx) decoderFacts(tf *typeFacts) {
 		if !ok {
 			continue
 		}
-		v := mi.X
-		// peel conversions, math.FloatNNfrombits, time.Unix(x+k, 0), additions of constants
-		for i := 0; i < 10; i++ {
+		// peel conversions, math.FloatNNfrombits, time.Unix(x+k, 0), additions of constants; a value merged from
+		// several branches (secs += k1 / secs -= k2) is followed along every branch
+		delegated := false
+		var bases []ssa.Value
+		var walk func(v ssa.Value, depth int)
+		walk = func(v ssa.Value, depth int) {
+			if depth > 12 {
+				bases = append(bases, v)
+				return
+			}
 			switch y := v.(type) {
 			case *ssa.Convert:
-				v = y.X
-				continue
+				walk(y.X, depth+1)
+				return
 			case *ssa.ChangeType:
-				v = y.X
-				continue
+				walk(y.X, depth+1)
+				return
+			case *ssa.Phi:
+				for _, e := range y.Edges {
+					walk(e, depth+1)
+				}
+				return
 			case *ssa.Call:
 				if flow.IsCallTo(y, "math", "", "Float32frombits") || flow.IsCallTo(y, "math", "", "Float64frombits") {
-					v = y.Call.Args[0]
-					continue
+					walk(y.Call.Args[0], depth+1)
+					return
 				}
 				if flow.IsCallTo(y, "time", "", "Unix") {
-					v = y.Call.Args[0]
-					continue
+					walk(y.Call.Args[0], depth+1)
+					return
 				}
 				if g := flow.StaticCallee(y); g != nil && g.Pkg != nil && g.Pkg.Pkg.Path() == pkgDatatype && strings.HasPrefix(g.Name(), "Decode") {
 					// delegation to another decoder
 					tf.DecEndian = "delegate:" + g.Name()
+					delegated = true
+					return
 				}
 			case *ssa.Extract:
 				if call, ok := y.Tuple.(*ssa.Call); ok {
 					if g := flow.StaticCallee(call); g != nil && strings.HasPrefix(g.Name(), "Decode") {
 						tf.DecEndian = "delegate:" + g.Name()
+						delegated = true
+						return
 					}
 				}
 			case *ssa.TypeAssert:
-				v = y.X
-				continue
+				walk(y.X, depth+1)
+				return
 			case *ssa.BinOp:
 				if y.Op == token.ADD || y.Op == token.SUB {
 					if k, ok := flow.ConstInt(y.Y); ok {
@@ -622,14 +638,15 @@ func (c *Ctx) decoderFacts(tf *typeFacts) {
 						if b, ok := y.Type().Underlying().(*types.Basic); !ok || b.Kind() != types.Int64 {
 							tf.DecAddNarrow = true
 						}
-						v = y.X
-						continue
+						walk(y.X, depth+1)
+						return
 					}
 				}
 			}
-			break
+			bases = append(bases, v)
 		}
-		if strings.HasPrefix(tf.DecEndian, "delegate:") {
+		walk(mi.X, 0)
+		if delegated || strings.HasPrefix(tf.DecEndian, "delegate:") {
 			if g := c.P.Func("diam/datatype", strings.TrimPrefix(tf.DecEndian, "delegate:")); g != nil && g != d {
 				sub := &typeFacts{Decoder: g, DecLen: -1}
 				c.decoderFacts(sub)
@@ -637,20 +654,38 @@ func (c *Ctx) decoderFacts(tf *typeFacts) {
 			}
 			continue
 		}
-		if _, isBasic := v.Type().Underlying().(*types.Basic); !isBasic {
-			continue
-		}
-		w := rd.Eval(v)
-		n := width8(v.Type())
-		switch {
-		case w.IsBigEndianOf(0, n):
-			if tf.DecEndian == "" || tf.DecEndian == "big" {
-				tf.DecEndian = "big"
+		for _, v := range bases {
+			if _, isBasic := v.Type().Underlying().(*types.Basic); !isBasic {
+				continue
 			}
-		case isZeroWord(w):
-			// constant fallback value
-		default:
-			tf.DecEndian = "other:" + w.String()
+			w := rd.Eval(v)
+			n := width8(v.Type())
+			if cv, isConv := v.(*ssa.Convert); isConv {
+				n = width8(cv.X.Type())
+			}
+			switch {
+			case w.IsBigEndianOf(0, n):
+				if tf.DecEndian == "" || tf.DecEndian == "big" {
+					tf.DecEndian = "big"
+				}
+			case isZeroWord(w):
+				// constant fallback value
+			default:
+				// a widened value (int64(uint32)): judge the lanes of the narrow operand
+				ok := false
+				for m := 1; m <= 8; m *= 2 {
+					if w.IsBigEndianOf(0, m) {
+						ok = true
+					}
+				}
+				if ok {
+					if tf.DecEndian == "" || tf.DecEndian == "big" {
+						tf.DecEndian = "big"
+					}
+				} else {
+					tf.DecEndian = "other:" + w.String()
+				}
+			}
 		}
 	}
 }
